@@ -713,6 +713,10 @@ impl Sim {
                         props = vec!["C02", "C17"];
                     } else if *reason == "ask_fee_unpayable" {
                         props = vec!["C02", "C09"];
+                    } else if kind == "execute_match" && (*reason == "gross_not_integral" || *reason == "original_gross_not_integral") {
+                        // what is due (p*s, or (bid price - p)*s) is not a whole number of units:
+                        // whatever was paid, it was not "exactly its due" (C02), besides C03
+                        props.push("C02");
                     }
                     if matches!(kind, "cancel_ask" | "expire_ask" | "reject_ask") {
                         // a reversal that should not have happened and paid a recorded approver
